@@ -1,4 +1,19 @@
 //! @module dht_network_manager::verif_proofs
-//! Kani contracts and proof harnesses for this module (child module, cfg(kani) only).
+//! C05 stored-value size guard: native failing-input search (deciding engine: Verus unit `inbound`).
 #![allow(unused_imports)]
 use super::*;
+
+#[cfg(test)]
+mod search {
+    use super::*;
+
+    #[test]
+    fn verif_search_c05_put_value_size() {
+        for len in (0usize..=1100).chain([4096, 65_535, 65_536, 131_072, usize::MAX / 2, usize::MAX]) {
+            let ok = DhtNetworkManager::validate_put_value_size(len, "search").is_ok();
+            if ok != (len <= 512) {
+                panic!("VERIF-SEARCH-HIT C05/put/stored_values_are_at_most_512_bytes len={} accepted={}", len, ok);
+            }
+        }
+    }
+}
